@@ -486,9 +486,14 @@ func (c *Client) Shutdown(ctx context.Context) error {
 		}
 		ls = ccr.LLRPStatus
 	case MsgErrorMessage:
-		if err := ls.UnmarshalBinary(resp); err != nil {
+		errMsg := ErrorMessage{}
+		if err := errMsg.UnmarshalBinary(resp); err != nil {
 			return fmt.Errorf("unable to read ErrorMessage response: %v", err)
 		}
+		if errMsg.LLRPStatus.Status == StatusSuccess {
+			return fmt.Errorf("reader answered CloseConnection with an ErrorMessage")
+		}
+		ls = errMsg.LLRPStatus
 	default:
 		return fmt.Errorf("unexpected response to CloseConnection: %v", rTyp)
 	}
